@@ -75,11 +75,11 @@ func TestC07(t *testing.T) {
 	for _, p := range []string{"", "AllowOverwrite", "DenyOverwrite"} {
 		alphaX = append(alphaX, Op{Kind: "regnode", ID: "f", NT: F, Policy: p, SameObj: true})
 	}
-	for _, p := range []string{"ExplicitEmpty", "BogusThenDeny", "LowerDeny", "SpaceDeny"} {
+	for _, p := range []string{"ExplicitEmpty", "BogusThenDeny", "LowerDeny", "SpaceDeny", "DenyThenAllow", "AllowThenDeny"} {
 		alphaX = append(alphaX, Op{Kind: "regnode", ID: "f", NT: F, Policy: p}, Op{Kind: "regpipe", Type: "t0", Pid: "p0", IDs: []string{"f", "m", "k"}, Policy: p})
 	}
 	special := func(op Op) bool {
-		return op.SameObj || op.Policy == "ExplicitEmpty" || op.Policy == "BogusThenDeny" || op.Policy == "LowerDeny" || op.Policy == "SpaceDeny"
+		return op.SameObj || op.Policy == "ExplicitEmpty" || op.Policy == "BogusThenDeny" || op.Policy == "LowerDeny" || op.Policy == "SpaceDeny" || op.Policy == "DenyThenAllow" || op.Policy == "AllowThenDeny"
 	}
 	prologue := []Op{{Kind: "regnode", ID: "f", NT: F}, {Kind: "regnode", ID: "m", NT: M}, {Kind: "regnode", ID: "k", NT: K}}
 	types := []string{"t0", "t1"}
